@@ -131,6 +131,7 @@ type Fam struct {
 	rep      *replica
 	lastResp string
 	repResp  string
+	lastHalt string   // panic message of the last halt
 	blockRaw [][]byte // raw transactions seen in this block (material for the replica's own CheckTx traffic)
 }
 
@@ -188,6 +189,7 @@ func (f *Fam) guard(fn func() string) (res string) {
 				msg = msg[:120]
 			}
 			f.extra["halt:"+strings.ReplaceAll(msg, "\n", " ")]++
+			f.lastHalt = msg
 			if os.Getenv("VERIF_STACK") != "" {
 				fmt.Fprintf(os.Stderr, "halt: %v\n%s\n", e, debug.Stack())
 			}
@@ -582,6 +584,24 @@ func (f *Fam) txBytes(t txSpec) ([]byte, sdk.Msg) {
 	bz, err := f.app.Cdc.MarshalBinaryLengthPrefixed(tx)
 	if err != nil {
 		panic(err)
+	}
+	if t.mut == "nilint" { // the amount field is absent from the wire: decodes to an Int without a value
+		var short sdk.Msg
+		switch m := msg.(type) {
+		case posTypes.MsgSend:
+			short = shortSend{FromAddress: m.FromAddress, ToAddress: m.ToAddress}
+		case posTypes.MsgStake:
+			short = shortStake{PubKey: m.PubKey}
+		}
+		if short != nil {
+			bz, err = shortCdc.MarshalBinaryLengthPrefixed(authTypes.NewStdTx(short, fee, ss, memo, t.ent))
+			if err != nil {
+				panic(err)
+			}
+		} else {
+			h := sha256.Sum256(bz)
+			bz = h[:]
+		}
 	}
 	switch t.mut {
 	case "trunc":
